@@ -54,7 +54,9 @@ def dump(e):
 
 
 # ------------------------------------------------------------------ hints (UNTRUSTED: only candidates for the Coq checker)
-LEVELS = (14, 12, 10, 9, 8)      # assumed relative noise 10^-(level-1) of sympy's float arithmetic (cancellation makes it larger)
+# assumed relative noise 10^-(level-1) of sympy's float arithmetic (cancellation makes it larger); the first level takes a float
+# at its word up to 1e-15, so that a product such as 8823 - 2.99999^2 = 8814.0000599999 (14 digits) is not taken for 8814.00006
+LEVELS = (16, 14, 12, 10, 9, 8)
 
 
 def clean(fr, level=14):
